@@ -39,6 +39,10 @@ Structure ==
                   Pin1("nopins", <<>>) >>,
       !.obs = << Lyr("met1", <<>>, <<Geo("RECT", 4, 2)>>), Lyr("via1", <<>>, <<Geo("RECT", 5, 2)>>),
                  Lyr("met1", <<>>, <<Geo("POLYGON", 7, 4)>>) >>]),
+    \* layer names are case-sensitive identifiers: names that differ only in capitalisation are different layers
+    Lib1([M(Q(3)) EXCEPT
+      !.pins = << Pin1("B", <<Prt(<<Lyr("M1", <<>>, <<Geo("RECT", 1, 2)>>), Lyr("m1", <<>>, <<Geo("RECT", 3, 2)>>), Lyr("MET1", <<>>, <<Geo("RECT", 5, 2)>>)>>)>>) >>,
+      !.obs = << Lyr("Boundary", <<>>, <<Geo("RECT", 4, 2)>>), Lyr("met1", <<>>, <<Geo("RECT", 6, 2)>>), Lyr("Met1", <<>>, <<Geo("RECT", 7, 2)>>) >>]),
     [EmptyLib EXCEPT !.macros = << M(Q(2)), [M(Q(4)) EXCEPT !.name = "cell_b", !.obs = <<Lyr("m", <<>>, <<Geo("RECT", 2, 2)>>)>>] >>] }
 
 Libs == SizeCases \cup BadSize \cup ShapeCases \cup BadShape \cup Structure
